@@ -238,6 +238,8 @@ def coordDiffers (o : Opts) (s : WShape) : Option String :=
 
 /-- one shape -> one line (`to_crtf`, loop body). -/
 def writeLine (q : Quirks) (o : Opts) (s : WShape) : Except Err RLine :=
+  -- `check_crtf`: the shape's frame must be one of `valid_coordsys` (exact spelling)
+  if (coordsysTable.lookup s.coordsys).isNone then .error .valueError else
   match writeItems q (coordDiffers o s) (writerMeta q s) with
   | .error e => .error e
   | .ok items =>
